@@ -728,7 +728,7 @@ impl Prop for C12 {
 
     fn plan(&self, tier: Tier) -> Plan {
         let mut p = Plan::new(match tier {
-            Tier::Quick => 500,
+            Tier::Quick => 1500,
             Tier::Thorough => 12_000,
         });
         p.workers = 12;
